@@ -376,6 +376,10 @@ func runTM(opt Opts) error {
 	}
 	out := make([][]TMCase, len(hists))
 	var hung []int
+	if ij, err := json.Marshal(hists); err == nil {
+		os.MkdirAll(opt.Out, 0o755)
+		os.WriteFile(opt.Out+"/inputs.json", ij, 0o644)
+	}
 	var wg sync.WaitGroup
 	sem := make(chan struct{}, 12)
 	for i := range hists {
